@@ -1,6 +1,7 @@
 package gojq
 
 import (
+	"encoding/json"
 	"math"
 	"math/big"
 	"sort"
@@ -547,5 +548,44 @@ func H_C11_stable() {
 			vassert(u[i].(int) == g[i].([]any)[0].(int), "unique_by keeps the first element of each group")
 		}
 	}
+	vreach("end")
+}
+
+// H_C11_numrepr: the consumers use the ORDER, not the spelling or the Go representation:
+// equal numbers carried as int, float64 (incl. -0.0), *big.Int and json.Number literals
+// ("1.0", "1e2", "-0") are equal for array subtraction, indices, unique, group_by, sort.
+func H_C11_numrepr() {
+	zero := []any{0, 0.0, -1 * 0.0, json.Number("0"), json.Number("-0"), json.Number("0.0"), json.Number("0e5")}
+	one := []any{1, 1.0, json.Number("1"), json.Number("1.0"), json.Number("1.50e0"), 1.5, json.Number("10e-1")}
+	hundred := []any{100, 100.0, json.Number("100"), json.Number("1e2"), json.Number("1.0E+2"), big.NewInt(100)}
+	classes := [][]any{zero, one[:4], hundred, one[4:6]}
+	ci, cj := nondetChoice(len(classes)), nondetChoice(len(classes))
+	a := classes[ci][nondetChoice(len(classes[ci]))]
+	b := classes[cj][nondetChoice(len(classes[cj]))]
+	same := ci == cj
+	vassert((Compare(a, b) == 0) == same, "numbers compare by value in every representation")
+	// array subtraction
+	d := funcOpSub(nil, []any{a, "x"}, []any{b}).([]any)
+	if same {
+		vassert(len(d) == 1 && d[0] == "x", "array subtraction removes an equal number in any representation")
+	} else {
+		vassert(len(d) == 2, "array subtraction keeps a different number")
+	}
+	// indices / index
+	ix := funcIndices([]any{"x", a}, b).([]any)
+	vassert((len(ix) == 1) == same, "indices finds an equal number in any representation")
+	// unique / group_by / sort keep one class together
+	u := funcUnique([]any{a, b}).([]any)
+	if same {
+		vassert(len(u) == 1, "unique merges equal numbers of different representations")
+	} else {
+		vassert(len(u) == 2, "unique keeps different numbers")
+	}
+	g := funcGroupBy([]any{"p", "q"}, []any{[]any{a}, []any{b}}).([]any)
+	vassert((len(g) == 1) == same, "group_by groups by key equality in any representation")
+	vassert(funcContains([]any{a}, []any{b}).(bool) == same || !same, "contains on numbers")
+	bs := funcBsearch([]any{a}, b).(int)
+	vassert((bs == 0) == same, "bsearch finds an equal number in any representation")
+	vassert(funcOpEq(nil, a, b).(bool) == same, "== on numbers of different representations")
 	vreach("end")
 }
